@@ -10,7 +10,7 @@
 (*   force          the document in force (0 = the empty version-2 configuration New() starts with) *)
 (*   fetch          the fetch job: FetchStart, FetchAnswer(out) (environment: a document of         *)
 (*                  SvcDoc or a failure), FetchInstall (the swap), FetchReturn                      *)
-(*   call[i]        a ProposerConfig call: CallStart(i, v, acct) (acct: the caller knows the        *)
+(*   call[i]        a ProposerConfig call: CallStart(i, k, v, acct) (acct: the caller knows the        *)
 (*                  validator's account - the REST daemon does not, and account entries then cannot  *)
 (*                  match) ... CallRead(i) (the configuration is                                     *)
 (*                  read) ... CallReturn(i, r) (the settings were worked out - the accounts are     *)
@@ -22,6 +22,29 @@
 (* FORCE at some time during that call.  Nothing else the instance has seen - earlier calls for     *)
 (* the same or other validators, earlier documents, failed fetches - may show in the answer: the    *)
 (* only state the property makes persistent is the document in force.                               *)
+(*                                                                                                *)
+(* FIFTH ROUND - the CALLERS.  The property speaks of the settings "Vouch uses", not of one function: *)
+(* every entry point that resolves a proposer's settings is an action of this module (call[i].kind): *)
+(*   "direct"   ProposerConfig(account, pubkey) itself: the caller hands over the account (or none)  *)
+(*   "prep"     the proposal preparer: accounts from the account manager's listing, one lookup each  *)
+(*   "reg"      a registration round: accounts from the listing, registrations sent to the relays    *)
+(*   "auction"  AuctionBlock(pubkey) for a proposal duty of one of Vouch's validators: the account   *)
+(*              is looked up BY PUBLIC KEY at auction time                                           *)
+(*   "bid"      BuilderBid through the REST daemon without a cached bid (immediateBuilderBid): for a  *)
+(*              foreign validator there is no account; one of Vouch's own arrives here after a reorg  *)
+(*   "check"    --proposer-config-check: account by public key, then ProposerConfig                  *)
+(* The ACCOUNT MANAGER is a component with state of its own: known = the accounts it holds, replaced   *)
+(* by every refresh (AcctRefresh(S): a wallet that cannot be opened during a refresh takes its         *)
+(* accounts away until a later refresh).  The account lookup of a call is an environment step          *)
+(* CallLookup(i, out) answered from that state (found / notfound) or with an error.  Ours is the set   *)
+(* of validators whose keys are in Vouch's wallets (ground truth; the code only ever sees known).      *)
+(* CallersAgree: whatever entry point resolves the settings of one of Vouch's validators, the settings *)
+(* it USES are those of the documented precedence WITH the validator's account (account entries        *)
+(* apply) - or it uses none at all (no auction, no registration, an error message).  MissOnly: using    *)
+(* none is only allowed when the account manager did not answer with the account.                      *)
+(* Deviations (control models TLC must reject, run by every check):                                    *)
+(*   AuctionMiss = "nil"    an auction / check whose lookup failed carries on without the account       *)
+(*   BidAccount = "never"   the immediate bid never asks for the account (also for Vouch's own keys)    *)
 (*                                                                                                *)
 (* Design = "memo" is a CONTROL MODEL, not a permitted design: worked-out settings are remembered   *)
 (* per validator, the memo is emptied by every FetchInstall.  It is right for every single call on  *)
@@ -36,7 +59,13 @@ CONSTANTS Calls,       \* call ids (1..N)
           MaxFetches,  \* bound (model checking only)
           MaxOpen,     \* calls in flight at the same time
           Overlap,     \* BOOLEAN: calls may overlap a fetch (FALSE: sequential histories only)
-          Design       \* "resolve" | "memo" | "memochecked"
+          Design,      \* "resolve" | "memo" | "memochecked"
+          Kinds,       \* entry points that occur (subset of AllKinds)
+          Ours,        \* validators whose keys are in Vouch's wallets
+          LookErrs,    \* {} or {"error"}: the account lookup may also fail outright
+          MaxRefresh,  \* bound on account manager refreshes (model checking only)
+          AuctionMiss, \* "fail" (the design) | "nil" (deviation: carry on without the account)
+          BidAccount   \* "lookup" (the design) | "never" (deviation: the immediate bid never asks)
 
 \* the resolution operators of ExecConfig (they do not read its variables)
 EC == INSTANCE ExecConfig WITH Pairs <- FALSE, Wide <- FALSE,
@@ -63,8 +92,11 @@ SvcDoc(k) ==
       [] k = 3 -> EC!Build2(Param("mv", {"top", "base", "prop"}, TRUE, "dis", FALSE, Pub({"V2"}), Acc({"V1"})))
       [] k = 4 -> EC!Build2(Param("gr", {"prop", "prel"}, FALSE, "plain", TRUE, Acc({"V1"}), Pub({"V2"})))
       [] k = 5 -> EC!Build2(Param("pk", {"base", "prel"}, TRUE, "plain", FALSE, Pub({"V1"}), Pub({})))
+      \* a document of the legacy format (public keys only: the account can make no difference): V1 has an entry of
+      \* its own (no gas limit - both readings allowed -, builder with two relays and a grace), V2 gets the default
+      [] k = 6 -> EC!Build1([d |-> [gl |-> "val", b |-> "on1"], p |-> [gl |-> "none", b |-> "on2g"], other |-> TRUE])
 
-AllDocs == 0..5
+AllDocs == 0..6
 \* a caller that does not know the validator's account can only be matched by public-key entries
 Who(v, acct) == [id |-> IF acct THEN v ELSE "unknown", pubkey |-> v]
 Settings(d, v, acct) == EC!ResolveSet(SvcDoc(d), Who(v, acct), Fb)
@@ -73,6 +105,11 @@ Settings(d, v, acct) == EC!ResolveSet(SvcDoc(d), Who(v, acct), Fb)
 \* it matters whether the caller knows the account
 ASSUME \A a, b \in 1..5 : a # b => \A v \in VIds : Settings(a, v, TRUE) \cap Settings(b, v, TRUE) = {}
 ASSUME \A v \in VIds : \E a \in 1..5 : Settings(a, v, TRUE) \cap Settings(a, v, FALSE) = {}
+
+AllKinds == {"direct", "prep", "reg", "auction", "bid", "check"}
+ByKey == {"auction", "bid", "check"}      \* the account is looked up by public key
+ByListing == {"prep", "reg"}              \* the account comes from the account manager's listing
+ASSUME Kinds \subseteq AllKinds /\ Ours \subseteq VIds /\ LookErrs \subseteq {"error"}
 
 Outcomes == {[t |-> "good", doc |-> k] : k \in DocIds} \cup {[t |-> x, doc |-> 0] : x \in FailKinds}
 NoOutcome == [t |-> "none", doc |-> 0]
@@ -84,12 +121,18 @@ VARIABLES force,    \* document in force
           fetch,    \* [st |-> "idle" | "asked" | "got", out]
           nfetch,   \* fetches started (bound)
           call,     \* per call: [st, v, snap, during, res]
+          known,    \* the account manager: validators whose accounts it holds at present
+          nrefresh, \* account manager refreshes so far (bound)
           memo      \* control model: per validator (and kind of caller) the document its remembered settings
                     \* come from, or NoMemo
 
-vars == <<force, fetch, nfetch, call, memo>>
+vars == <<force, fetch, nfetch, call, known, nrefresh, memo>>
 
-IdleCall == [st |-> "idle", v |-> "V1", acct |-> TRUE, snap |-> 0, during |-> {}, res |-> NoRes]
+\* kind: the entry point; look: the answer of the account lookup ("none": not asked); acct: whether the
+\* resolution was handed the account; used: settings were used (FALSE: the entry point gave up - no auction,
+\* no registration, an error message)
+IdleCall == [st |-> "idle", kind |-> "direct", v |-> "V1", acct |-> TRUE, look |-> "none", used |-> FALSE,
+             snap |-> 0, during |-> {}, res |-> NoRes]
 MemoKeys == VIds \X BOOLEAN
 Key(c) == <<c.v, c.acct>>
 
@@ -98,9 +141,10 @@ Init ==
     /\ fetch = [st |-> "idle", out |-> NoOutcome]
     /\ nfetch = 0
     /\ call = [i \in Calls |-> IdleCall]
+    /\ known = Ours /\ nrefresh = 0
     /\ memo = [k \in MemoKeys |-> NoMemo]
 
-Open == {i \in Calls : call[i].st \in {"open", "read"}}
+Open == {i \in Calls : call[i].st \in {"look", "open", "read"}}
 Memoising == Design \in {"memo", "memochecked"}
 
 \* ---- the fetch job (Env_SingleFetcher: never twice at the same time) ----
@@ -109,12 +153,19 @@ FetchStart ==
     /\ ~Overlap => Open = {}
     /\ fetch' = [st |-> "asked", out |-> NoOutcome]
     /\ nfetch' = nfetch + 1
-    /\ UNCHANGED <<force, call, memo>>
+    /\ UNCHANGED <<force, call, known, nrefresh, memo>>
 
 FetchAnswer(out) ==
     /\ fetch.st = "asked" /\ out \in Outcomes
     /\ fetch' = [st |-> "got", out |-> out]
-    /\ UNCHANGED <<force, nfetch, call, memo>>
+    /\ UNCHANGED <<force, nfetch, call, known, nrefresh, memo>>
+
+\* the job asks the account manager for the validating accounts first and does not go to the source when there
+\* are none: the configuration in force stays
+FetchSkip ==
+    /\ fetch.st = "asked" /\ known = {}
+    /\ fetch' = [st |-> "done", out |-> NoOutcome]
+    /\ UNCHANGED <<force, nfetch, call, known, nrefresh, memo>>
 
 \* the swap: only a document obtained successfully replaces the one in force; from here on it is in force
 \* for every call in flight
@@ -124,42 +175,79 @@ FetchInstall ==
     /\ fetch' = [fetch EXCEPT !.st = "done"]
     /\ call' = [i \in Calls |-> IF i \in Open THEN [call[i] EXCEPT !.during = @ \cup {force'}] ELSE call[i]]
     /\ memo' = [k \in MemoKeys |-> NoMemo]
-    /\ UNCHANGED nfetch
+    /\ UNCHANGED <<nfetch, known, nrefresh>>
 
 FetchReturn ==
     /\ fetch.st = "done"
     /\ fetch' = [st |-> "idle", out |-> NoOutcome]
-    /\ UNCHANGED <<force, nfetch, call, memo>>
+    /\ UNCHANGED <<force, nfetch, call, known, nrefresh, memo>>
 
-\* ---- ProposerConfig ----
-CallStart(i, v, acct) ==
-    /\ call[i].st = "idle" /\ v \in VIds /\ acct \in BOOLEAN
+\* ---- the account manager: a refresh replaces the accounts it holds (a wallet that could not be opened or
+\* listed takes its accounts away until a later refresh; C13 is about the refresh itself) ----
+AcctRefresh(S) ==
+    /\ S \subseteq Ours /\ S # known
+    /\ nrefresh < MaxRefresh
+    /\ known' = S /\ nrefresh' = nrefresh + 1
+    /\ UNCHANGED <<force, fetch, nfetch, call, memo>>
+
+\* ---- the entry points ----
+\* "direct": the caller hands the account over (acct) or has none; every other entry point finds it out itself.
+\* Listings and proposal duties only exist for Vouch's own validators; a REST bid request can be for anybody.
+CallStart(i, k, v, acct) ==
+    /\ call[i].st = "idle" /\ v \in VIds /\ acct \in BOOLEAN /\ k \in Kinds
+    /\ k # "direct" => acct
+    /\ k \in ByListing \cup {"auction", "check"} => v \in Ours
     /\ \A j \in Calls : j < i => call[j].st # "idle"
     /\ Cardinality(Open) < MaxOpen
     /\ ~Overlap => fetch.st = "idle"
-    /\ call' = [call EXCEPT ![i] = [st |-> "open", v |-> v, acct |-> acct, snap |-> 0, during |-> {force}, res |-> NoRes]]
-    /\ UNCHANGED <<force, fetch, nfetch, memo>>
+    /\ call' = [call EXCEPT ![i] = [st |-> IF k = "direct" THEN "open" ELSE "look", kind |-> k, v |-> v, acct |-> acct,
+                                     look |-> "none", used |-> FALSE, snap |-> 0, during |-> {force}, res |-> NoRes]]
+    /\ UNCHANGED <<force, fetch, nfetch, known, nrefresh, memo>>
+
+\* the answers the account manager can give for validator v at present
+LookOuts(v) == (IF v \in known THEN {"found"} ELSE {"notfound"}) \cup LookErrs
+
+\* the account lookup (AccountByPublicKey / the validating accounts listing) is answered; what the entry point
+\* does with the answer:
+\*   found     -> the resolution is handed the account
+\*   otherwise -> auction, check: give up (deviation AuctionMiss = "nil": carry on without the account);
+\*                prep, reg: the validator is not in the listing, nothing is done for it;
+\*                bid: a validator Vouch holds no account for - resolved by public key alone
+CallLookup(i, out) ==
+    /\ call[i].st = "look" /\ out \in LookOuts(call[i].v)
+    /\ LET c == call[i]
+           found == out = "found"
+           goOn == \/ found
+                   \/ c.kind = "bid"
+                   \/ c.kind \in {"auction", "check"} /\ AuctionMiss = "nil"
+           withAcct == found /\ ~(c.kind = "bid" /\ BidAccount = "never")
+       IN  call' = [call EXCEPT ![i] = [@ EXCEPT !.look = out, !.acct = withAcct,
+                                                 !.st = IF goOn THEN "open" ELSE "done"]]
+    /\ UNCHANGED <<force, fetch, nfetch, known, nrefresh, memo>>
 
 \* the configuration is read (control model: a remembered answer is returned on the spot)
 CallRead(i) ==
     /\ call[i].st = "open"
     /\ call' = [call EXCEPT ![i] = [@ EXCEPT !.st = "read", !.snap = IF Memoising /\ memo[Key(call[i])] # NoMemo
                                                                       THEN memo[Key(call[i])] ELSE force]]
-    /\ UNCHANGED <<force, fetch, nfetch, memo>>
+    /\ UNCHANGED <<force, fetch, nfetch, known, nrefresh, memo>>
 
-\* the settings are worked out from the configuration that was read, and returned
+\* the settings are worked out from the configuration that was read, and used (returned to the caller, handed to
+\* the bid strategy, sent to the relays and nodes)
 CallReturn(i, r) ==
     /\ call[i].st = "read"
     /\ r \in Settings(call[i].snap, call[i].v, call[i].acct)
-    /\ call' = [call EXCEPT ![i] = [@ EXCEPT !.st = "done", !.res = r]]
+    /\ call' = [call EXCEPT ![i] = [@ EXCEPT !.st = "done", !.res = r, !.used = TRUE]]
     /\ memo' = IF Design = "memo" \/ (Design = "memochecked" /\ force = call[i].snap)
                THEN [memo EXCEPT ![Key(call[i])] = call[i].snap] ELSE memo
-    /\ UNCHANGED <<force, fetch, nfetch>>
+    /\ UNCHANGED <<force, fetch, nfetch, known, nrefresh>>
 
 Next ==
-    \/ FetchStart \/ FetchInstall \/ FetchReturn
+    \/ FetchStart \/ FetchInstall \/ FetchReturn \/ FetchSkip
     \/ \E out \in Outcomes : FetchAnswer(out)
-    \/ \E i \in Calls, v \in VIds, acct \in BOOLEAN : CallStart(i, v, acct)
+    \/ \E S \in SUBSET Ours : AcctRefresh(S)
+    \/ \E i \in Calls, k \in Kinds, v \in VIds, acct \in BOOLEAN : CallStart(i, k, v, acct)
+    \/ \E i \in Calls, out \in {"found", "notfound", "error"} : CallLookup(i, out)
     \/ \E i \in Calls : CallRead(i)
     \/ \E i \in Calls : \E r \in Settings(call[i].snap, call[i].v, call[i].acct) : CallReturn(i, r)
 
@@ -171,19 +259,39 @@ FetchBound == nfetch <= MaxFetches
 TypeOK ==
     /\ force \in AllDocs
     /\ fetch.st \in {"idle", "asked", "got", "done"}
-    /\ \A i \in Calls : /\ call[i].st \in {"idle", "open", "read", "done"}
+    /\ known \subseteq Ours
+    /\ \A i \in Calls : /\ call[i].st \in {"idle", "look", "open", "read", "done"}
+                        /\ call[i].kind \in AllKinds /\ call[i].look \in {"none", "found", "notfound", "error"}
                         /\ call[i].v \in VIds /\ call[i].snap \in AllDocs /\ call[i].during \subseteq AllDocs
     /\ \A k \in MemoKeys : memo[k] \in {NoMemo} \cup AllDocs
 
 \* C10 on a long-lived instance: the settings a call returns are those of the documented precedence applied to
 \* a configuration that was in force during the call
 UsesInForce ==
-    \A i \in Calls : call[i].st = "done" =>
+    \A i \in Calls : (call[i].st = "done" /\ call[i].used) =>
         \E d \in call[i].during : call[i].res \in Settings(d, call[i].v, call[i].acct)
+
+\* C10 across the entry points: the settings used for a validator do not depend on WHO resolves them.  For one of
+\* Vouch's validators they are those of the documented precedence with the validator's account, whichever entry
+\* point asks and whatever the account manager answers at that moment; a validator Vouch holds no account for is
+\* resolved by its public key.  (An immediate bid can only tell that a key is Vouch's own from the account
+\* manager's answer; the other entry points only exist for Vouch's validators.)
+WithAccount(c) ==
+    CASE c.kind = "direct" -> c.acct
+      [] c.kind = "bid" -> c.look = "found"
+      [] OTHER -> c.v \in Ours
+CallersAgree ==
+    \A i \in Calls : (call[i].st = "done" /\ call[i].used) =>
+        \E d \in call[i].during : call[i].res \in Settings(d, call[i].v, WithAccount(call[i]))
+
+\* giving up (no auction, no registration, an error message) is only allowed when the account manager did not
+\* answer with the account
+MissOnly ==
+    \A i \in Calls : (call[i].st = "done" /\ ~call[i].used) => call[i].look \in {"notfound", "error"}
 
 \* without overlap: a call that starts after a fetch has returned (and that no fetch overlaps) is answered from
 \* the last document obtained successfully - implied by UsesInForce (during = {force}); stated for the reader
 SequentialRight ==
-    \A i \in Calls : (call[i].st = "done" /\ Cardinality(call[i].during) = 1) =>
+    \A i \in Calls : (call[i].st = "done" /\ call[i].used /\ Cardinality(call[i].during) = 1) =>
         \A d \in call[i].during : call[i].res \in Settings(d, call[i].v, call[i].acct)
 =============================================================================
